@@ -107,7 +107,7 @@ mod raw {
                     buf = &mut buf[0..size_limit - total_read];
                 }
             }
-            let n = source_ref.unwrap().read(buf)?;
+            let n = posix::retry_intr(|| source_ref.unwrap().read(buf))?;
             if n != 0 {
                 dest.extend_from_slice(&buf[..n]);
             } else {
@@ -161,7 +161,7 @@ mod raw {
                 if in_ready {
                     let input = &self.input_data[self.input_pos..];
                     let chunk = &input[..min(WRITE_SIZE, input.len())];
-                    let n = self.stdin.as_ref().unwrap().write(chunk)?;
+                    let n = posix::retry_intr(|| self.stdin.as_ref().unwrap().write(chunk))?;
                     self.input_pos += n;
                     if self.input_pos == self.input_data.len() {
                         // close stdin when done writing, so the child receives EOF
